@@ -1124,3 +1124,99 @@ theorem MotionTie_reject_silent (b : B) (op : Op) (g : BSt × Option Err) (hag :
   have := C05_reject_silent_partial b op e h1 hsite
   rw [this] at h3
   simpa using h3.symm
+
+/-! ## units and the mode context managers -/
+namespace GscribModel.MotionTie
+
+def unitsOf (i : Bool) : LengthUnits := bif i then .INCHES else .MILLIMETERS
+
+theorem tlu : tableLookup "LengthUnits" "INCHES" = some "G20" ∧ tableLookup "LengthUnits" "MILLIMETERS" = some "G21" := by decide +kernel
+
+theorem scale_to_pixels (u : LengthUnits) (q : Rat) : LengthUnits.scale u (LengthUnits.to_pixels u (.fin q)) = .fin q := by
+  have hf : LengthUnits.scale_factor u ≠ 0 := by cases u <;> decide +kernel
+  simp only [LengthUnits.scale, LengthUnits.to_pixels, Val.divQ, Val.mulQ, Val.fin.injEq]
+  exact Rat.div_mul_cancel hf
+
+end GscribModel.MotionTie
+
+/-- **`set_length_units()`**: the resolution is converted through pixels with the *new* unit both ways (the identity in exact
+    arithmetic) and must stay positive; then the unit is tracked and `G20` / `G21` written. -/
+theorem MotionTie_length_units (b : B) (i : Bool) (h : Rat) (hres : 0 < b.res) :
+    AgreesM (step b (.units i)) (GCodeBuilder.set_length_units (absB b) (Arg.val (unitsOf i)) h) := by
+  have e0 : absB b = absB' b [] [] := rfl
+  have hu : (absB' b [] []).state._current_length_units = unitsOf b.inches := rfl
+  have hr : (absB' b [] []).state._current_resolution = .fin b.res := rfl
+  have key : AgreesM (step b (.units i)) (GCodeBuilder.set_length_units (absB b) (Arg.val (unitsOf i)) h) := by
+    simp only [GCodeBuilder.set_length_units, e0, hu, hr, scale_to_pixels, getStatement, fmtWords, Option.map_some]
+    by_cases hi : i = b.inches
+    · subst hi
+      simp only [decide_true, Bool.not_true, Bool.false_eq_true, if_false, write_eq]
+      have hb : ({ b with inches := b.inches } : B) = b := rfl
+      cases hq : b.inches <;>
+        (simp [step, hq, AgreesM, accept, outOf, absB', absB, absG, view3, conv3, partCodes3, partAx, partWords, Code.text, unitsOf, LengthUnits.memberName, tlu] <;> first | done | rfl)
+    · have hne : decide (unitsOf i = unitsOf b.inches) = false := by
+        cases i <;> cases hq : b.inches <;> simp_all [unitsOf]
+      have hle : Val.le (.fin b.res) (.fin 0) = false := by
+        simp only [Val.le, decide_eq_false_iff_not, Rat.not_le]; exact hres
+      simp only [hne, Bool.not_false, if_true, GCodeBuilder.set_resolution, GState._set_resolution, hr, hle, Bool.false_eq_true, if_false,
+        GState._set_length_units]
+      rw [write_any]
+      cases i <;>
+        (simp [step, AgreesM, accept, outOf, absB', absB, absG, view3, conv3, partCodes3, partAx, partWords, Code.text, unitsOf, LengthUnits.memberName, tlu] <;> first | done | rfl)
+  exact key
+
+namespace GscribModel.MotionTie
+
+theorem dmOf_inj (a b : Bool) : decide (dmOf a = dmOf b) = decide (a = b) := by cases a <;> cases b <;> rfl
+
+theorem enter_eq (b : B) (r : Bool) (h : Rat) :
+    (if r then GCodeCore.relative_mode_enter (absB' b [] []) h else GCodeCore.absolute_mode_enter (absB' b [] []) h) =
+      if r = b.rel then (absB' b [] [], .ok (dmOf b.rel))
+      else (absB' { b with rel := r, srel := r } [dmStmt r] [], .ok (dmOf b.rel)) := by
+  have hm : (absB' b [] [])._distance_mode = dmOf b.rel := rfl
+  have h1 : DistanceMode.RELATIVE = dmOf true := rfl
+  have h0 : DistanceMode.ABSOLUTE = dmOf false := rfl
+  cases r
+  · simp only [Bool.false_eq_true, if_false, GCodeCore.absolute_mode_enter, hm, h0, dmOf_inj, set_dist_eq]
+    cases hb : b.rel <;> simp
+  · simp only [if_true, GCodeCore.relative_mode_enter, hm, h1, dmOf_inj, set_dist_eq]
+    cases hb : b.rel <;> simp
+
+theorem exit_eq (b : B) (prev : Bool) (h : Rat) :
+    GCodeCore.absolute_mode_exit (absB' b [] []) (dmOf prev) h =
+      (if prev = b.rel then (absB' b [] [], none) else (absB' { b with rel := prev, srel := prev } [dmStmt prev] [], none)) ∧
+    GCodeCore.relative_mode_exit (absB' b [] []) (dmOf prev) h =
+      (if prev = b.rel then (absB' b [] [], none) else (absB' { b with rel := prev, srel := prev } [dmStmt prev] [], none)) := by
+  have hm : (absB' b [] [])._distance_mode = dmOf b.rel := rfl
+  constructor <;>
+  · simp only [GCodeCore.absolute_mode_exit, GCodeCore.relative_mode_exit, hm, dmOf_inj, set_dist_eq]
+    cases prev <;> cases hb : b.rel <;> simp
+
+end GscribModel.MotionTie
+
+/-- **`absolute_mode()` / `relative_mode()`** as the caller sees them: entering saves the mode in force and switches (writing
+    `G90` / `G91`) only when it differs; leaving - the `finally` block, whatever the body did - restores the saved mode the same way. -/
+theorem MotionTie_contexts (b : B) (r : Bool) (h : Rat) :
+    (let g := if r then GCodeCore.relative_mode_enter (absB b) h else GCodeCore.absolute_mode_enter (absB b) h
+     g.2 = .ok (dmOf b.rel) ∧ absB (step b (.enterCtx r)).b = { g.1 with out := [] } ∧
+     (step b (.enterCtx r)).stmts.map view3 = g.1.out.map conv3 ∧ (step b (.enterCtx r)).out = .ok ∧
+     (step b (.enterCtx r)).b.ctx = b.rel :: b.ctx) ∧
+    (∀ prev rest, b.ctx = prev :: rest →
+      AgreesM (step b .exitCtx) (GCodeCore.absolute_mode_exit (absB b) (dmOf prev) h) ∧
+      AgreesM (step b .exitCtx) (GCodeCore.relative_mode_exit (absB b) (dmOf prev) h) ∧ (step b .exitCtx).b.ctx = rest) := by
+  have e0 : absB b = absB' b [] [] := rfl
+  constructor
+  · rw [e0, enter_eq b r h]
+    by_cases hr : r = b.rel
+    · subst hr
+      (simp [step, accept, absB', absB, absG] <;> first | done | rfl)
+    · have hr' : r ≠ b.rel := hr
+      cases r <;>
+        (simp [step, hr, hr', stepSetDist, accept, absB', absB, absG, view3, conv3, partCodes3, partAx, partWords, Code.text, modeStmt, dmStmt, dmOf, tl, DistanceMode.memberName] <;> first | done | rfl)
+  · intro prev rest hc
+    rw [e0, (exit_eq b prev h).1, (exit_eq b prev h).2]
+    by_cases hr : prev = b.rel
+    · (simp [step, hc, hr, AgreesM, accept, outOf, absB', absB, absG] <;> first | done | rfl)
+    · have hr' : prev ≠ b.rel := hr
+      cases prev <;>
+        (simp [step, hc, hr, hr', stepSetDist, AgreesM, accept, outOf, absB', absB, absG, view3, conv3, partCodes3, partAx, partWords, Code.text, modeStmt, dmStmt, dmOf, tl, DistanceMode.memberName] <;> first | done | rfl)
